@@ -175,9 +175,9 @@ class RegisterVisitor(LetFiller):
     def visit_NamedQubit(self, qubit):
         """Visit a named qubit that may possibly have its index
         remapped. Doing so will change the name of the qubit."""
+        new_from = self.visit(qubit.alias_from)
         if isinstance(qubit.alias_index, Constant):
             new_index = self.resolve_constant(qubit.alias_index)
-            new_from = self.visit(qubit.alias_from)
-            return NamedQubit(qubit.name, new_from, new_index)
         else:
-            return qubit
+            new_index = qubit.alias_index
+        return NamedQubit(qubit.name, new_from, new_index)
